@@ -3438,6 +3438,11 @@ operatorSwitch:
 			c.emit(dropOp)
 			c.emit(newOperationBr(functionFrame.asLabel()))
 		} else {
+			if c.ensureTermination {
+				// A tail call replaces the frame instead of growing the call stack, so a cycle of
+				// tail calls is as unbounded as a loop: it needs the same exit code check.
+				c.emit(newOperationBuiltinFunctionCheckExitCode())
+			}
 			c.emit(newOperationTailCallReturnCall(index))
 		}
 
@@ -3456,6 +3461,10 @@ operatorSwitch:
 
 		functionFrame := c.controlFrames.functionFrame()
 		dropRange := c.getFrameDropRange(functionFrame, false)
+		if c.ensureTermination {
+			// See OpcodeTailCallReturnCall.
+			c.emit(newOperationBuiltinFunctionCheckExitCode())
+		}
 		c.emit(newOperationTailCallReturnCallIndirect(typeIndex, tableIndex, dropRange, functionFrame.asLabel()))
 
 		// Return operation is stack-polymorphic, and mark the state as unreachable.
